@@ -238,6 +238,15 @@ func RunCase(es graphql.ExecutableSchema, c Case) Result {
 			time.Sleep(5 * time.Millisecond)
 		}
 	}
+	for i := range res.Payloads {
+		// the result line itself is JSON: a payload whose data is not one JSON text is reported, not embedded
+		if d := res.Payloads[i].Data; d != nil && !json.Valid(d) {
+			if res.Crash == "" {
+				res.Crash = fmt.Sprintf("payload %d: data is not a JSON text: %q", i, truncate(string(d), 300))
+			}
+			res.Payloads[i].Data = json.RawMessage("null")
+		}
+	}
 	st.mu.Lock()
 	res.Cancelled = st.Cancelled
 	res.Log = append([]Inv{}, st.Log...)
